@@ -539,7 +539,9 @@ class CircuitTemplate(AbstractBaseTemplate):
                 columns.append(key)
                 data.append(out)
         if multi_index:
-            columns = MultiIndex.from_tuples(columns)
+            # single-variable outputs are labelled by their key alone; wrap them so that the key is not split into
+            # characters when mixed with multi-node outputs
+            columns = MultiIndex.from_tuples([c if isinstance(c, tuple) else (c,) for c in columns])
         results = DataFrame(data=np.asarray(data).T, columns=columns, index=time_vec)
 
         # store current state of the network
@@ -1204,7 +1206,8 @@ class CircuitTemplate(AbstractBaseTemplate):
 
         else:
 
-            outputs = self._relabel_var(outputs, self._vectorization_labels)
+            # resolve the requested nodes by their frontend names; the relabeling to the vectorized backend variable
+            # happens per node below (relabeling first made a merged node resolve to the first node of its vector)
             *out_nodes, out_op, out_var = outputs.split('/')
             target_nodes = self.get_nodes(out_nodes, var_identifier=(out_op, out_var))
 
@@ -1245,9 +1248,12 @@ class CircuitTemplate(AbstractBaseTemplate):
     def _get_var_idx(self, var: str) -> list:
         idx = self._vectorization_indices[var]
         try:
-            *n, o, v = var.split('/')
-            return np.arange(*self._state_var_indices[v])[idx]
-        except KeyError:
+            # the state-vector layout is keyed by the unique backend label of the variable (`x`, `x_v1`, ...), which
+            # differs from its frontend name as soon as two operators use the same variable name
+            v = self._ir.get_var(self._relabel_var(var, self._vectorization_labels), get_key=True)
+            pos = self._state_var_indices[v]
+            return (np.arange(*pos) if isinstance(pos, tuple) else np.asarray([pos]))[idx]
+        except (KeyError, AttributeError):
             return idx
 
     def _apply_populations_and_connections(self) -> tuple:
